@@ -1,8 +1,8 @@
 #!/bin/bash
 # regression over all seeded changes: each must be caught by its check(s)
 cd "$(dirname "$0")"
-for id in C01 C02 C03 C04 C05 C06 C07 C08 C09 C10 C11 C12 C13 C14 C15 C16 C17 C18 C19 C20 $(for i in $(seq -w 1 20); do echo C$i-2; done); do
-  checks=${id%-2}
+for id in C01 C02 C03 C04 C05 C06 C07 C08 C09 C10 C11 C12 C13 C14 C15 C16 C17 C18 C19 C20 $(for i in $(seq -w 1 20); do echo C$i-2; done) $(ls seeded | grep -- "-3$"); do
+  checks=${id%-[23]}
   [ $id = C04 ] && checks="C04 C13"
   [ $id = C10 ] && checks="C10 C12"
   [ $id = C19-2 ] && checks="C19 C08"
